@@ -92,7 +92,12 @@ enum BvhCase {
     SameAxisCentre(usize), // n boxes whose centres coincide on the longest axis but differ elsewhere
     Lattice(usize),       // first n boxes of the 6x6x6 lattice
     Occluders(usize, usize), // model with k shades (variant), through BVH<&Occluder>
+    /// n boxes whose centres coincide on the longest axis at a value that is not a binary fraction (the f32 mean of n
+    /// equal values need not equal the value): (n, index into INEXACT_CENTRES)
+    InexactCentre(usize, usize),
 }
+
+const INEXACT_CENTRES: [f32; 6] = [4.05, 0.1, 0.7, 1.0e-3, 123456.7, -2.3];
 
 const STRUCT_N: [usize; 14] = [2, 3, 4, 5, 8, 16, 29, 30, 31, 32, 33, 60, 61, 64];
 
@@ -112,6 +117,9 @@ fn bvh_cases(tier: Tier) -> Vec<BvhCase> {
         }
         v.push(BvhCase::Collinear(n));
         v.push(BvhCase::SameAxisCentre(n));
+        for c in 0..INEXACT_CENTRES.len() {
+            v.push(BvhCase::InexactCentre(n, c));
+        }
     }
     let lat: Vec<usize> = match tier {
         Tier::Quick => vec![0, 1, 2, 7, 29, 30, 31, 62, 100, 200, 216],
@@ -150,6 +158,13 @@ fn elements_for(c: &BvhCase) -> Vec<AABB> {
                 AABB::new(point![0.0, y, 0.0], point![10.0, y + 0.05, 0.05])
             })
             .collect(),
+        BvhCase::InexactCentre(n, c) => (0..*n)
+            .map(|i| {
+                // slats: 3 m long along x around the common centre, stacked in z
+                let (cx, z) = (INEXACT_CENTRES[*c], i as f32 * 0.03);
+                AABB::new(point![cx - 1.5, 0.0, z], point![cx + 1.5, 0.15, z + 0.01])
+            })
+            .collect(),
         BvhCase::Lattice(n) => (0..*n)
             .map(|i| {
                 let (x, y, z) = ((i % 6) as f32, ((i / 6) % 6) as f32, (i / 36) as f32);
@@ -171,7 +186,7 @@ fn occluder_model(k: usize, variant: usize) -> Model {
         m.shades.push(Shade {
             id: uid(&format!("sh{i}")),
             name: format!("sh{i}"),
-            geometry: geom(tilt, az, Some(pos), rect(1.0, 1.0)),
+            geometry: geom(tilt, az, Some(pos), rect(1.0, 1.0)), ..Default::default()
         });
     }
     m
@@ -254,6 +269,7 @@ fn class_of(c: &BvhCase) -> String {
         BvhCase::Collinear(_) => "n>0".into(),
         BvhCase::SameAxisCentre(_) => "n>0,coincident-on-split-axis".into(),
         BvhCase::Lattice(n) => if *n == 0 { "n=0".into() } else { "n>0".into() },
+        BvhCase::InexactCentre(..) => "n>0,coincident-on-split-axis:centre-not-a-binary-fraction".into(),
         BvhCase::Occluders(k, v) => format!("n{}{}", if *k == 0 { "=0" } else { ">0" }, if *v == 1 && *k > 1 { ",coincident-centres" } else { "" }),
     }
 }
@@ -740,7 +756,7 @@ pub fn run(ctx: &Ctx) -> i32 {
     run_reveals(ctx);
     ctx.finish(
         "model_checking",
-        "(a) BVH: all sequences of length 0..L over an 8-box alphabet on the {0..3}^3 grid (flat, point, two boxes with identical centres; L=4 quick / 5 thorough) x leaf size {1,2,3,30} x 88 rays (incl. directions with -0.0 components), n copies of one element, collinear centres, centres coinciding on the split axis, prefixes of a 216-box lattice, shade sets through BVH<&Occluder>; each build runs in a supervised worker process (watchdog, 4 GiB) and BVH.intersects(r).is_some() is compared with testing every obstacle; AABB::intersects itself against an f64 slab test for 48 boxes x 88 rays, and BVH over plain polygons (no box pre-check on the element side) against the one-by-one polygon test; 2..40 complementary triangles of one rectangle (identical boxes, different polygons, all centres coinciding) x leaf size {1,2,30} x an 80-ray grid over the rectangle; (b) all simple polygons (general position) with 3..4 vertices on the 4x4 grid (+5-gons 4x4 and 6-gons 3x3 in thorough, 5-gons 3x3 in quick) x poses (tilt{0,30,90,135,180} x az{0,45,90,-120,180} x 2 positions) x 64 quarter-lattice targets x 3 directions x {front-towards, front-away, behind-towards, parallel} against exact integer point-in-polygon (targets on the outline skipped) + AABB containment; (c) reveal quads for setback{.05,.2,1} x 3 window rects x 6 tilts x 5 azimuths x 2 positions against the wall's own transform; non-trivial = non-empty obstacle set / polygon with at least one expected hit / 4 reveal quads generated",
+        "(a) BVH: all sequences of length 0..L over an 8-box alphabet on the {0..3}^3 grid (flat, point, two boxes with identical centres; L=4 quick / 5 thorough) x leaf size {1,2,3,30} x 88 rays (incl. directions with -0.0 components), n copies of one element, collinear centres, centres coinciding on the split axis (also at values that are not binary fractions: 4.05, 0.1, 0.7, 1e-3, 123456.7, -2.3), prefixes of a 216-box lattice, shade sets through BVH<&Occluder>; each build runs in a supervised worker process (watchdog, 4 GiB) and BVH.intersects(r).is_some() is compared with testing every obstacle; AABB::intersects itself against an f64 slab test for 48 boxes x 88 rays, and BVH over plain polygons (no box pre-check on the element side) against the one-by-one polygon test; 2..40 complementary triangles of one rectangle (identical boxes, different polygons, all centres coinciding) x leaf size {1,2,30} x an 80-ray grid over the rectangle; (b) all simple polygons (general position) with 3..4 vertices on the 4x4 grid (+5-gons 4x4 and 6-gons 3x3 in thorough, 5-gons 3x3 in quick) x poses (tilt{0,30,90,135,180} x az{0,45,90,-120,180} x 2 positions) x 64 quarter-lattice targets x 3 directions x {front-towards, front-away, behind-towards, parallel} against exact integer point-in-polygon (targets on the outline skipped) + AABB containment; (c) reveal quads for setback{.05,.2,1} x 3 window rects x 6 tilts x 5 azimuths x 2 positions against the wall's own transform; non-trivial = non-empty obstacle set / polygon with at least one expected hit / 4 reveal quads generated",
         true,
         json!({}),
     )
